@@ -189,3 +189,71 @@ def lemma_split_once(ctx):
              z3.BoolVal(len(relabels) == 1 and not in_loop and len(top) == 1 and bool(loop_idx) and top[0] > max(loop_idx))),
             ("split_residue: every split string is interpreted against the molecule and only extends the accumulated mapping, which is what is relabelled", [],
              z3.BoolVal(bool(interp) and unsplit and arg_ok))]
+
+
+def lemma_box_precedence(ctx):
+    """C03 ('It carries the box that was requested, or the box of the input structure when one is given, or a cubic box ...'), the part
+    gen_coords' own control flow decides: the statements of gen_coords that rebind `box` between the reading of the input structure and
+    the construction of BuildSystem are interpreted over three atoms (A: a box was requested, B: the input structure has a box,
+    E: the two are equal); obligations: B implies the box handed to BuildSystem is the box of the input structure (or the equal requested
+    one), not B implies it is the requested one (None: BuildSystem.__init__ then derives it from the density -- contract INIT_BOX);
+    BuildSystem receives that `box` and the density; the structure is written with topology.box (which __init__ sets)."""
+    import z3
+    from pyvc.types import Unsupported
+    mod = source.load("polyply.src.gen_coords")
+    fn = mod.functions.get("gen_coords")
+    if fn is None:
+        raise Unsupported("gen_coords not found (stale contract)")
+    A, B, E = z3.Bools("box_requested structure_has_box boxes_equal")
+
+    def cond(e):
+        if isinstance(e, ast.BoolOp):
+            parts = [cond(v) for v in e.values]
+            return z3.And(*parts) if isinstance(e.op, ast.And) else z3.Or(*parts)
+        if isinstance(e, ast.UnaryOp) and isinstance(e.op, ast.Not):
+            return z3.Not(cond(e.operand))
+        txt = ast.unparse(e)
+        if txt == "box is not None":
+            return A
+        if txt == "box is None":
+            return z3.Not(A)
+        if txt == "topology.box is not None":
+            return B
+        if txt == "topology.box is None":
+            return z3.Not(B)
+        if txt in ("np.array_equal(topology.box, box)", "np.array_equal(box, topology.box)"):
+            return E
+        return z3.Bool("other condition: " + txt)        # anything else the choice is made to depend on: arbitrary
+
+    def writes_box(st):
+        return any(isinstance(n, (ast.Assign, ast.AugAssign)) and any(isinstance(t, ast.Name) and t.id == "box" for t in (n.targets if isinstance(n, ast.Assign) else [n.target]))
+                   for n in ast.walk(st))
+    idx_build = [i for i, st in enumerate(fn.body) if any(isinstance(n, ast.Call) and call_name(n) == "BuildSystem" for n in ast.walk(st))]
+    if not idx_build:
+        raise Unsupported("BuildSystem is not constructed in gen_coords (stale contract)")
+    # symbolic value of `box` : 0 = the requested box (possibly None), 1 = the box of the input structure
+    val = z3.IntVal(0)
+
+    def run(stmts, val):
+        for st in stmts:
+            if isinstance(st, ast.If) and writes_box(st):
+                c = cond(st.test)
+                val = z3.If(c, run(st.body, val), run(st.orelse, val))
+            elif isinstance(st, ast.Assign) and len(st.targets) == 1 and isinstance(st.targets[0], ast.Name) and st.targets[0].id == "box":
+                if ast.unparse(st.value) == "topology.box":
+                    val = z3.IntVal(1)
+                elif ast.unparse(st.value) != "box":
+                    val = z3.IntVal(2)          # some other value: neither the requested box nor the box of the input structure
+            elif writes_box(st):
+                raise Unsupported(f"gen_coords rebinds `box` inside a statement this contract does not interpret (line {st.lineno})")
+        return val
+    final = run(fn.body[:idx_build[0]], val)
+    call = next(n for n in ast.walk(fn.body[idx_build[0]]) if isinstance(n, ast.Call) and call_name(n) == "BuildSystem")
+    kw = {k.arg: ast.unparse(k.value) for k in call.keywords}
+    wg = [n for n in ast.walk(fn) if isinstance(n, ast.Call) and call_name(n) == "write_gro"]
+    wkw = {k.arg: ast.unparse(k.value) for c_ in wg for k in c_.keywords}
+    return [("gen_coords: when the input structure has a box, BuildSystem gets that box (or the equal requested one)", [B], z3.Or(final == 1, z3.And(final == 0, A, E))),
+            ("gen_coords: when the input structure has no box, BuildSystem gets the requested box (None: derived from the density)", [z3.Not(B)], final == 0),
+            ("gen_coords: BuildSystem is constructed with that box and the requested density", [], z3.BoolVal(kw.get("box") == "box" and kw.get("density") == "density")),
+            ("gen_coords: the structure is written with the box the topology carries after the build (set by BuildSystem.__init__)", [],
+             z3.BoolVal(len(wg) == 1 and wkw.get("box") == "topology.box"))]
